@@ -871,25 +871,40 @@ func registerDBModels() {
 	ifaceModels[src+".Get"] = func(x *Exec, cs *callSite) *Val {
 		st := cs.st
 		x.assumeNote("Source.Get(ctx,url,filter,start,limit): error, or exactly blocks start..start+limit-1 in order, hash-linked where 32-byte hashes are supplied (refined by jrpc2.validate for header/block plans; C07)")
+		x.useDB() // hashOf
 		tup := cs.res.(*types.Tuple)
-		res := x.freshVal(st, "got", tup)
+		// the returned slice is a NEW object: its representation invariant
+		// (base allocated) holds in the allocation map AFTER the call, and
+		// the object was not allocated before (freshVal would state the
+		// invariant against the allocation map before the call and make the
+		// success path contradictory)
+		res := &Val{Ty: tup}
+		for i := 0; i < tup.Len(); i++ {
+			res.Tuple = append(res.Tuple, &Val{T: x.sc.Fresh(fmt.Sprintf("got_%d", i), x.sortOf(tup.At(i).Type())), Ty: tup.At(i).Type()})
+		}
 		b := res.Tuple[0].T
 		e := res.Tuple[1].T
+		allocBefore := st.alloc
 		start, limit := x.term(cs.args[3]), x.term(cs.args[4])
 		bt := tup.At(0).Type().Underlying().(*types.Slice).Elem()
 		h := x.heap(st, bt)
-		blk := func(j string) Term {
-			return Term{fmt.Sprintf("(select (select %s %s) (bvadd %s %s))", h.S, sBase(b).S, sOff(b).S, j), x.sortOf(bt)}
+		// quantified over the ABSOLUTE index a = off + j (a bijection on 64-bit
+		// vectors): the trigger is a plain (select array a), which survives the
+		// solvers' normalisation of bit-vector arithmetic
+		blk := func(a string) Term {
+			return Term{fmt.Sprintf("(select (select %s %s) %s)", h.S, sBase(b).S, a), x.sortOf(bt)}
 		}
+		rel := fmt.Sprintf("(bvsub a %s)", sOff(b).S)
 		x.assume(st, Implies(Eq(e, Term{"inil", SIface}), And(
 			Eq(sLen(b), limit), Not(Eq(sBase(b), IntConst(0))),
-			Not(Select(st.alloc, sBase(b))), // a new backing array
-			T(SBool, "(forall ((j (_ BitVec 64))) (! (=> (bvult j %s) (= %s (bvadd %s j))) :pattern (%s)))", limit.S, x.blockNum(blk("j"), bt).S, start.S, blk("j").S),
+			Not(Select(allocBefore, sBase(b))), // a new backing array
+			T(SBool, "(forall ((a (_ BitVec 64))) (! (=> (bvult %s %s) (= %s (bvadd %s %s))) :pattern (%s)))", rel, limit.S, x.blockNum(blk("a"), bt).S, start.S, rel, blk("a").S),
 		)))
 		// linkage inside one answer
-		x.assume(st, Implies(Eq(e, Term{"inil", SIface}), T(SBool, "(forall ((j (_ BitVec 64))) (! (=> (and (bvult j %s) (bvugt j #x0000000000000000) (= (slen %s) #x0000000000000020)) (= (hashOf %s %s) (hashOf %s %s))) :pattern (%s)))",
-			limit.S, x.blockParent(blk("j"), bt).S, x.heap(st, SBV8).S, x.blockParent(blk("j"), bt).S, x.heap(st, SBV8).S, x.blockHash(blk("(bvsub j #x0000000000000001)"), bt).S, blk("j").S)))
+		x.assume(st, Implies(Eq(e, Term{"inil", SIface}), T(SBool, "(forall ((a (_ BitVec 64))) (! (=> (and (bvult %s %s) (bvugt %s #x0000000000000000) (= (slen %s) #x0000000000000020)) (= (hashOf %s %s) (hashOf %s %s))) :pattern (%s)))",
+			rel, limit.S, rel, x.blockParent(blk("a"), bt).S, x.heap(st, SBV8).S, x.blockParent(blk("a"), bt).S, x.heap(st, SBV8).S, x.blockHash(blk("(bvsub a #x0000000000000001)"), bt).S, blk("a").S)))
 		st.alloc = x.sc.Define("alloc", Store(st.alloc, sBase(b), TTrue))
+		x.assume(st, x.typeInv(b, tup.At(0).Type(), st, 2))
 		return res
 	}
 	ifaceMods[src+".Get"] = func(x *Exec, m *modSet) { m.alloc = true }
